@@ -146,44 +146,53 @@ func toWireList(vs []any) []any {
 	return ret
 }
 
-// sharedContainers counts non-empty maps / slices reachable by two paths from the
-// parser's documents (separation monitor, DESIGN §5.2).
-func sharedContainers(docs []*bkl.Document) int {
-	seen := map[uintptr]bool{}
+// sharedContainers finds non-empty maps / slices reachable by two paths from the
+// parser's documents (separation monitor, DESIGN §5.2). It returns the count and, for the
+// first few, both access paths ([doc index, {"k":key}|{"i":index}...]) so that the
+// orchestrator can aim a follow-up layer at one of them and look at the other.
+func sharedContainers(docs []*bkl.Document) (int, []any) {
+	seen := map[uintptr][]any{}
 	shared := 0
-	var walk func(v any)
-	walk = func(v any) {
+	pairs := []any{}
+	var walk func(v any, path []any)
+	visit := func(p uintptr, path []any) bool {
+		if first, ok := seen[p]; ok {
+			shared++
+			if len(pairs) < 6 {
+				pairs = append(pairs, map[string]any{"a": first, "b": append([]any{}, path...)})
+			}
+			return true
+		}
+		seen[p] = append([]any{}, path...)
+		return false
+	}
+	walk = func(v any, path []any) {
 		switch v2 := v.(type) {
 		case map[string]any:
-			if len(v2) > 0 {
-				p := reflect.ValueOf(v2).Pointer()
-				if seen[p] {
-					shared++
-					return
-				}
-				seen[p] = true
+			if len(v2) > 0 && visit(reflect.ValueOf(v2).Pointer(), path) {
+				return
 			}
-			for _, x := range v2 {
-				walk(x)
+			keys := make([]string, 0, len(v2))
+			for k := range v2 {
+				keys = append(keys, k)
+			}
+			sort.Strings(keys)
+			for _, k := range keys {
+				walk(v2[k], append(path, map[string]any{"k": k}))
 			}
 		case []any:
-			if len(v2) > 0 {
-				p := reflect.ValueOf(v2).Pointer()
-				if seen[p] {
-					shared++
-					return
-				}
-				seen[p] = true
+			if len(v2) > 0 && visit(reflect.ValueOf(v2).Pointer(), path) {
+				return
 			}
-			for _, x := range v2 {
-				walk(x)
+			for i, x := range v2 {
+				walk(x, append(path, map[string]any{"i": i}))
 			}
 		}
 	}
-	for _, d := range docs {
-		walk(d.Data)
+	for i, d := range docs {
+		walk(d.Data, []any{i})
 	}
-	return shared
+	return shared, pairs
 }
 
 func runHist(op map[string]any) (any, error) {
@@ -255,7 +264,8 @@ func runHist(op map[string]any) (any, error) {
 			continue
 		}
 		if _, ok := step["alias"]; ok {
-			res = append(res, map[string]any{"shared": sharedContainers(p.Documents())})
+			n, pairs := sharedContainers(p.Documents())
+			res = append(res, map[string]any{"shared": n, "pairs": pairs})
 			continue
 		}
 		return nil, fmt.Errorf("unknown step %v", step)
